@@ -8,6 +8,7 @@ Model of the C++ by the agreement theorems `decode*_eq` / `encode*_ok`.
 Payload level (the compressed bytes are not compared).
 -/
 import Proofs.ImplV2Lists
+import Proofs.SetterFrame
 
 namespace EngineModel.Properties.C04
 open EngineModel EngineModel.Codec EngineModel.V2 EngineModel.Impl.V2
@@ -22,9 +23,9 @@ theorem C04_v2_beat_reencode (bs : Bytes) (v : Beat) (extra : Bytes)
   rw [decodeBeat_eq, liftDec_ok_iff] at h
   rw [encodeBeat_ok, beat_exact.reencode h]
 
-theorem C04_v2_ovw_reencode (bs : Bytes) (v : Ovw) (extra : Bytes)
+theorem C04_v2_ovw_reencode (bs : Bytes) (hlen : bs.length < maxCount) (v : Ovw) (extra : Bytes)
     (h : decodeOvw bs = .ok (v, extra)) : encodeOvw v extra = .ok bs := by
-  rw [decodeOvw_eq, liftDec_ok_iff] at h
+  rw [decodeOvw_eq bs hlen, liftDec_ok_iff] at h
   rw [encodeOvw_ok v (ovw_exact _ _ _ h).1, ovw_exact.reencode h]
 
 theorem C04_v2_loops_reencode (bs : Bytes) (v : Loops) (extra : Bytes)
@@ -95,5 +96,348 @@ theorem C04_normBool_id (bs : Bytes) (raw : CuesRaw) (extra : Bytes)
 /-- Non-vacuity: a foreign quick-cues payload with flag byte 7 and two trailing bytes. -/
 example : decodeCues ([0,0,0,0,0,0,0,0] ++ [0,0,0,0,0,0,0,1] ++ [7] ++ [0,0,0,0,0,0,0,2] ++ [0xaa, 0xbb])
     = .ok (⟨[], 1, true, 2⟩, [0xaa, 0xbb]) := by decide
+
+/-! ## setter frame: a read-modify-write setter changes only the bytes of the field it names
+
+`TracksV2.applySetter` (lean/EngineModel/TracksV2/Lens.lean, the Model of `v2::track_impl`'s setters on
+one Track row whose five BLOB columns are kept as decoded value + trailing `extra_data`) is related to
+the stored payload bytes through the Spec encoders (`payloadTrack … payloadLoops`): for each of the eleven
+read-modify-write setters every other column's payload is unchanged and, inside the touched column,
+only the byte range of the named field may differ (`AgreeOutside a b`: equal length, equal before `a`
+and from `b` on).  The row is arbitrary — foreign entry counts, labelled or coloured empty slots, odd
+flag bytes (already normalised by decoding: `C04_v2_cues_reencode`), any trailing bytes. -/
+section SetterFrame
+open EngineModel.SetterFrame EngineModel.TracksV2
+
+theorem C04_setter_frame_hot_cue_at (ops : FOps) (i : UInt32) (v : Option HotCue) (r r' : Row)
+    (h : applySetter ops (.hotCueAt i v) r = .ok r') :
+    payloadTrack r' = payloadTrack r ∧ payloadOvw r' = payloadOvw r ∧ payloadBeat r' = payloadBeat r ∧
+    payloadLoops r' = payloadLoops r ∧
+    ∃ pre post old, payloadCues r = pre ++ V2.cue.enc old ++ post ∧
+      payloadCues r' = pre ++ V2.cue.enc (writeHotCue v) ++ post ∧ r.cues.1.cues[i.toNat]? = some old :=
+  frame_hotCueAt ops i v r r' h
+
+theorem C04_setter_frame_loop_at (ops : FOps) (i : UInt32) (v : Option LoopV) (r r' : Row)
+    (h : applySetter ops (.loopAt i v) r = .ok r') :
+    payloadTrack r' = payloadTrack r ∧ payloadOvw r' = payloadOvw r ∧ payloadBeat r' = payloadBeat r ∧
+    payloadCues r' = payloadCues r ∧
+    ∃ pre post old, payloadLoops r = pre ++ V2.loop.enc old ++ post ∧
+      payloadLoops r' = pre ++ V2.loop.enc (writeLoop v) ++ post ∧ r.loops.1[i.toNat]? = some old :=
+  frame_loopAt ops i v r r' h
+
+theorem C04_setter_frame_main_cue (ops : FOps) (v : Option F) (r r' : Row)
+    (h : applySetter ops (.mainCue v) r = .ok r') :
+    payloadTrack r' = payloadTrack r ∧ payloadOvw r' = payloadOvw r ∧ payloadBeat r' = payloadBeat r ∧
+    payloadLoops r' = payloadLoops r ∧
+    ∃ pre mid mid', payloadCues r = pre ++ mid ++ r.cues.2 ∧ payloadCues r' = pre ++ mid' ++ r.cues.2 ∧
+      mid.length = 17 ∧ mid'.length = 17 :=
+  frame_mainCue ops v r r' h
+
+theorem C04_setter_frame_hot_cues (ops : FOps) (v : List (Option HotCue)) (r r' : Row)
+    (h : applySetter ops (.hotCues v) r = .ok r') :
+    payloadTrack r' = payloadTrack r ∧ payloadOvw r' = payloadOvw r ∧ payloadBeat r' = payloadBeat r ∧
+    payloadLoops r' = payloadLoops r ∧
+    ∃ head head' tail, payloadCues r = head ++ tail ∧ payloadCues r' = head' ++ tail ∧
+      tail.length = 17 + r.cues.2.length :=
+  frame_hotCues ops v r r' h
+
+theorem C04_setter_frame_average_loudness (ops : FOps) (v : Option F) (r r' : Row)
+    (h : applySetter ops (.averageLoudness v) r = .ok r') :
+    AgreeOutside 20 44 (payloadTrack r) (payloadTrack r') ∧ payloadOvw r' = payloadOvw r ∧
+    payloadBeat r' = payloadBeat r ∧ payloadCues r' = payloadCues r ∧ payloadLoops r' = payloadLoops r :=
+  frame_averageLoudness ops v r r' h
+
+theorem C04_setter_frame_key (ops : FOps) (v : Option UInt32) (r r' : Row)
+    (h : applySetter ops (.key v) r = .ok r') :
+    AgreeOutside 16 20 (payloadTrack r) (payloadTrack r') ∧ payloadOvw r' = payloadOvw r ∧
+    payloadBeat r' = payloadBeat r ∧ payloadCues r' = payloadCues r ∧ payloadLoops r' = payloadLoops r :=
+  frame_key ops v r r' h
+
+theorem C04_setter_frame_sample_count (ops : FOps) (v : Option UInt64) (r r' : Row)
+    (h : applySetter ops (.sampleCount v) r = .ok r') :
+    AgreeOutside 8 16 (payloadTrack r) (payloadTrack r') ∧ AgreeOutside 8 16 (payloadBeat r) (payloadBeat r') ∧
+    payloadOvw r' = payloadOvw r ∧ payloadCues r' = payloadCues r ∧ payloadLoops r' = payloadLoops r :=
+  frame_sampleCount ops v r r' h
+
+theorem C04_setter_frame_sample_rate (ops : FOps) (v : Option F) (r r' : Row)
+    (h : applySetter ops (.sampleRate v) r = .ok r') :
+    AgreeOutside 0 8 (payloadTrack r) (payloadTrack r') ∧ AgreeOutside 0 8 (payloadBeat r) (payloadBeat r') ∧
+    payloadOvw r' = payloadOvw r ∧ payloadCues r' = payloadCues r ∧ payloadLoops r' = payloadLoops r :=
+  frame_sampleRate ops v r r' h
+
+theorem C04_setter_frame_beatgrid (ops : FOps) (g : List GMarker) (r r' : Row)
+    (h : applySetter ops (.beatgrid g) r = .ok r') :
+    payloadTrack r' = payloadTrack r ∧ payloadOvw r' = payloadOvw r ∧ payloadCues r' = payloadCues r ∧
+    payloadLoops r' = payloadLoops r ∧
+    ∃ mid mid', payloadBeat r = (payloadBeat r).take 16 ++ mid ++ r.beat.2 ∧
+      payloadBeat r' = (payloadBeat r).take 16 ++ mid' ++ r.beat.2 :=
+  frame_beatgrid ops g r r' h
+
+/-- non-vacuity: the hypotheses are satisfiable on a foreign-looking row (3 cue entries, a labelled and
+coloured empty slot, flag set, two trailing bytes) -/
+example : ∃ r', applySetter ops0 (.hotCueAt 0 (some cue0)) row0 = .ok r' := ⟨_, rfl⟩
+
+/-- `set_loops` (read-modify-write since `fix:` bee2c23 — formerly the known finding
+`v2-set-loops-waveform-drop-extra-data`, with `C04_setter_frame_loops_counterexample`): the loops payload is
+the encoding of the loop list followed by the trailing `extra_data`; the call replaces the list by the new
+(padded) one and keeps the trailing bytes; every other column is byte-identical. -/
+theorem C04_setter_frame_loops (ops : FOps) (v : List (Option LoopV)) (r r' : Row)
+    (h : applySetter ops (.loops v) r = .ok r') :
+    payloadTrack r' = payloadTrack r ∧ payloadOvw r' = payloadOvw r ∧ payloadBeat r' = payloadBeat r ∧
+    payloadCues r' = payloadCues r ∧
+    ∃ ls, writeLoops v = .ok ls ∧ payloadLoops r = V2.loops.enc r.loops.1 ++ r.loops.2 ∧
+      payloadLoops r' = V2.loops.enc ls ++ r.loops.2 :=
+  frame_loops ops v r r' h
+
+/-- `set_waveform` (likewise repaired): only the samples-per-entry / points / maximum fields of the overview
+waveform payload are replaced; its trailing bytes and every other column are byte-identical. -/
+theorem C04_setter_frame_waveform (ops : FOps) (w : List WEntry) (r r' : Row)
+    (h : applySetter ops (.waveform w) r = .ok r') :
+    payloadTrack r' = payloadTrack r ∧ payloadBeat r' = payloadBeat r ∧ payloadCues r' = payloadCues r ∧
+    payloadLoops r' = payloadLoops r ∧
+    ∃ o, writeWaveform ops w (getSampleCount r) (getSampleRate r) = .ok o ∧
+      payloadOvw r = V2.ovw.enc r.ovw.1 ++ r.ovw.2 ∧ payloadOvw r' = V2.ovw.enc o ++ r.ovw.2 :=
+  frame_waveform ops w r r' h
+
+/-- the 15 setters that write plain columns only -/
+def columnOnly : Setter → Bool
+  | .album _ | .artist _ | .bitrate _ | .bpm _ | .comment _ | .composer _ | .duration _ | .genre _
+  | .lastPlayedAt _ | .publisher _ | .rating _ | .relativePath _ | .title _ | .trackNumber _ | .year _ => true
+  | _ => false
+
+/-- **The other 15 setters** (`set_album` … `set_year`, incl. `set_bpm`, `set_relative_path`) leave the payload
+of all five performance-data columns byte-identical.  Together with the eleven theorems above every one of
+the 26 setters is covered. -/
+theorem C04_setter_frame_column_setters (ops : FOps) (σ : Setter) (hσ : columnOnly σ = true) (r r' : Row)
+    (h : applySetter ops σ r = .ok r') :
+    payloadTrack r' = payloadTrack r ∧ payloadOvw r' = payloadOvw r ∧ payloadBeat r' = payloadBeat r ∧
+    payloadCues r' = payloadCues r ∧ payloadLoops r' = payloadLoops r := by
+  cases σ <;> simp only [columnOnly, Bool.false_eq_true] at hσ <;>
+    (simp only [applySetter, Res.ok.injEq] at h; subst h; exact ⟨rfl, rfl, rfl, rfl, rfl⟩)
+
+example : columnOnly (.title (some [65])) = true ∧ columnOnly (.key none) = false := ⟨rfl, rfl⟩
+
+/-- non-vacuity, on the rows of the former counterexamples: `set_loops(loops())` on a loops column with a
+foreign trailing byte 0xcc, `set_waveform(waveform())` on an overview column with a trailing 0x09 — both calls
+succeed and the payload, foreign byte included, is exactly the old one. -/
+example : ∃ r', applySetter ops0 (.loops (getLoops rowL)) rowL = .ok r' ∧
+    payloadLoops r' = payloadLoops rowL ∧ (payloadLoops r').getLast? = some 0xcc :=
+  loops_setter_keeps_extra_example
+example : ∃ r', applySetter ops0 (.waveform (getWaveform row0)) row0 = .ok r' ∧
+    payloadOvw r' = payloadOvw row0 ∧ (payloadOvw r').getLast? = some 0x09 :=
+  waveform_setter_keeps_extra_example
+
+end SetterFrame
+
+/-! ## the same, about STORED BYTES
+
+The frame theorems above speak about `payloadX r = Spec.X.enc (decoded value) ++ extra`.  The next
+theorems tie that to the bytes of the columns before and after the call: if the five stored payloads
+`B` decode (Model decoders) to the row `r`, the setter turns `r` into `r'`, and `r'` encodes (Model
+encoders) to `B'`, then `payloadX r` IS the stored payload `B.X` (quick cues: `normBool B.c`, the one
+permitted normalisation) and `payloadX r'` IS `B'.X`.  Hence every frame theorem is a statement about
+stored bytes; the composed forms are stated for the fifteen column-only setters, for the four
+fixed-field setters and for the per-slot setters. -/
+section StoredBytes
+open EngineModel.SetterFrame EngineModel.TracksV2
+
+/-- the five uncompressed performance-data payloads of one Track row -/
+structure Stored where
+  t : Bytes
+  o : Bytes
+  b : Bytes
+  c : Bytes
+  l : Bytes
+
+/-- what `from_blob` makes of the stored payloads is the row's decoded columns -/
+def DecodesTo (B : Stored) (r : Row) : Prop :=
+  decodeTrack B.t = .ok r.trackData ∧ decodeOvw B.o = .ok r.ovw ∧ decodeBeat B.b = .ok r.beat ∧
+  decodeCues B.c = .ok r.cues ∧ decodeLoops B.l = .ok r.loops
+
+/-- what `to_blob` makes of the row's decoded columns is the stored payloads -/
+def EncodesTo (r : Row) (B : Stored) : Prop :=
+  encodeTrack r.trackData.1 r.trackData.2 = .ok B.t ∧ encodeOvw r.ovw.1 r.ovw.2 = .ok B.o ∧
+  encodeBeat r.beat.1 r.beat.2 = .ok B.b ∧ encodeCues r.cues.1 r.cues.2 = .ok B.c ∧
+  encodeLoops r.loops.1 r.loops.2 = .ok B.l
+
+theorem C04_stored_payloads (B : Stored) (r : Row) (hlen : B.o.length < maxCount) (h : DecodesTo B r) :
+    payloadTrack r = B.t ∧ payloadOvw r = B.o ∧ payloadBeat r = B.b ∧ payloadCues r = normBool B.c ∧
+    payloadLoops r = B.l := by
+  obtain ⟨ht, ho, hb, hc, hl⟩ := h
+  refine ⟨?_, ?_, ?_, ?_, ?_⟩
+  · rw [decodeTrack_eq, liftDec_ok_iff] at ht
+    exact ((track_exact _ _ _ ht).2).symm
+  · rw [decodeOvw_eq _ hlen, liftDec_ok_iff] at ho
+    exact ((ovw_exact _ _ _ ho).2).symm
+  · rw [decodeBeat_eq, liftDec_ok_iff] at hb
+    exact ((beat_exact _ _ _ hb).2).symm
+  · have := C04_v2_cues_reencode B.c r.cues.1 r.cues.2 hc
+    rw [decodeCues_eq, liftDec_ok_iff] at hc
+    obtain ⟨raw, hraw, hv⟩ := cues_dec_raw hc
+    have hfit := (cuesRaw_exact _ _ _ hraw).1
+    rw [encodeCues_ok r.cues.1 (by rw [hv]; exact fun q hq => hfit.2 q hq)] at this
+    injection this
+  · rw [decodeLoops_eq, liftDec_ok_iff] at hl
+    exact ((loops_exact _ _ _ hl).2).symm
+
+theorem C04_written_payloads (r : Row) (B : Stored) (hv : r.ovw.1.Valid) (h : EncodesTo r B) :
+    payloadTrack r = B.t ∧ payloadOvw r = B.o ∧ payloadBeat r = B.b ∧ payloadCues r = B.c ∧ payloadLoops r = B.l := by
+  obtain ⟨ht, ho, hb, hc, hl⟩ := h
+  refine ⟨?_, ?_, ?_, ?_, ?_⟩
+  · rw [encodeTrack_ok] at ht; injection ht
+  · rw [encodeOvw_ok _ hv] at ho; injection ho
+  · rw [encodeBeat_ok] at hb; injection hb
+  · by_cases hf : CuesFit r.cues.1
+    · rw [encodeCues_ok _ hf] at hc; injection hc
+    · rw [encodeCues_reject _ hf] at hc; cases hc
+  · by_cases hf : LoopsFit r.loops.1
+    · rw [encodeLoops_ok _ hf] at hl; injection hl
+    · rw [encodeLoops_reject _ hf] at hl; cases hl
+
+/-- the performance-data columns a read-modify-write setter names -/
+def touchesTrack : Setter → Bool
+  | .averageLoudness _ | .key _ | .sampleCount _ | .sampleRate _ => true | _ => false
+def touchesBeat : Setter → Bool
+  | .beatgrid _ | .sampleCount _ | .sampleRate _ => true | _ => false
+def touchesCues : Setter → Bool
+  | .hotCueAt _ _ | .hotCues _ | .mainCue _ => true | _ => false
+def touchesLoops : Setter → Bool
+  | .loopAt _ _ | .loops _ => true | _ => false
+def touchesOvw : Setter → Bool
+  | .waveform _ => true | _ => false
+
+/-- **All 26 setters: a performance-data column the setter does not name is not changed at all** (decoded
+value and trailing bytes) — in particular the fifteen column-only setters change none of the five. -/
+theorem C04_setter_untouched_columns (ops : FOps) (σ : Setter) (r r' : Row) (h : applySetter ops σ r = .ok r') :
+    (touchesTrack σ = false → r'.trackData = r.trackData) ∧ (touchesOvw σ = false → r'.ovw = r.ovw) ∧
+    (touchesBeat σ = false → r'.beat = r.beat) ∧ (touchesCues σ = false → r'.cues = r.cues) ∧
+    (touchesLoops σ = false → r'.loops = r.loops) := by
+  have bind_ok : ∀ {α β} {x : Res α} {f : α → Res β} {b : β}, x.bind f = .ok b → ∃ a, x = .ok a ∧ f a = .ok b := by
+    intro α β x f b hb
+    cases x with
+    | ok a => exact ⟨a, rfl, hb⟩
+    | throw e => cases hb
+    | ub u => cases hb
+  cases σ <;> simp only [applySetter] at h <;>
+    first
+    | (injection h with h; subst h; simp [touchesTrack, touchesOvw, touchesBeat, touchesCues, touchesLoops])
+    | (obtain ⟨_, _, h⟩ := bind_ok h
+       obtain ⟨_, _, h⟩ := bind_ok h
+       injection h with h; subst h; simp [touchesTrack, touchesOvw, touchesBeat, touchesCues, touchesLoops])
+    | (obtain ⟨_, _, h⟩ := bind_ok h
+       injection h with h; subst h; simp [touchesTrack, touchesOvw, touchesBeat, touchesCues, touchesLoops])
+
+theorem C04_column_only_setters (ops : FOps) (σ : Setter) (hσ : columnOnly σ = true) (r r' : Row)
+    (h : applySetter ops σ r = .ok r') :
+    r'.trackData = r.trackData ∧ r'.ovw = r.ovw ∧ r'.beat = r.beat ∧ r'.cues = r.cues ∧ r'.loops = r.loops := by
+  obtain ⟨h1, h2, h3, h4, h5⟩ := C04_setter_untouched_columns ops σ r r' h
+  cases σ <;> simp [columnOnly] at hσ <;> exact ⟨h1 rfl, h2 rfl, h3 rfl, h4 rfl, h5 rfl⟩
+
+/-- Stored-bytes form, fifteen column-only setters: decode the five stored payloads, apply the setter,
+encode — every payload is byte-identical (quick cues: up to `normBool`). -/
+theorem C04_column_only_setters_bytes (ops : FOps) (σ : Setter) (hσ : columnOnly σ = true) (B B' : Stored)
+    (r r' : Row) (hlen : B.o.length < maxCount) (hd : DecodesTo B r)
+    (h : applySetter ops σ r = .ok r') (he : EncodesTo r' B') :
+    B'.t = B.t ∧ B'.o = B.o ∧ B'.b = B.b ∧ B'.c = normBool B.c ∧ B'.l = B.l := by
+  obtain ⟨e1, e2, e3, e4, e5⟩ := C04_column_only_setters ops σ hσ r r' h
+  have hv : r'.ovw.1.Valid := by
+    rw [e2]
+    have ho := hd.2.1
+    rw [decodeOvw_eq _ hlen, liftDec_ok_iff] at ho
+    exact (ovw_exact _ _ _ ho).1
+  obtain ⟨p1, p2, p3, p4, p5⟩ := C04_stored_payloads B r hlen hd
+  obtain ⟨q1, q2, q3, q4, q5⟩ := C04_written_payloads r' B' hv he
+  unfold payloadTrack at p1 q1; unfold payloadOvw at p2 q2; unfold payloadBeat at p3 q3
+  unfold payloadCues at p4 q4; unfold payloadLoops at p5 q5
+  rw [e1] at q1; rw [e2] at q2; rw [e3] at q3; rw [e4] at q4; rw [e5] at q5
+  exact ⟨by rw [← q1, p1], by rw [← q2, p2], by rw [← q3, p3], by rw [← q4, p4], by rw [← q5, p5]⟩
+
+/-- Stored-bytes form, the four fixed-field setters: the track-data payload changes only inside the byte
+range of the named field (and the beat-data payload for the two sample setters); overview, quick cues
+(up to `normBool`) and loops are byte-identical. -/
+theorem C04_fixed_field_setters_bytes (ops : FOps) (B B' : Stored) (r r' : Row)
+    (hlen : B.o.length < maxCount) (hd : DecodesTo B r) (he : EncodesTo r' B') :
+    (∀ v, applySetter ops (.averageLoudness v) r = .ok r' →
+      AgreeOutside 20 44 B.t B'.t ∧ B'.o = B.o ∧ B'.b = B.b ∧ B'.c = normBool B.c ∧ B'.l = B.l) ∧
+    (∀ v, applySetter ops (.key v) r = .ok r' →
+      AgreeOutside 16 20 B.t B'.t ∧ B'.o = B.o ∧ B'.b = B.b ∧ B'.c = normBool B.c ∧ B'.l = B.l) ∧
+    (∀ v, applySetter ops (.sampleCount v) r = .ok r' →
+      AgreeOutside 8 16 B.t B'.t ∧ AgreeOutside 8 16 B.b B'.b ∧ B'.o = B.o ∧ B'.c = normBool B.c ∧ B'.l = B.l) ∧
+    (∀ v, applySetter ops (.sampleRate v) r = .ok r' →
+      AgreeOutside 0 8 B.t B'.t ∧ AgreeOutside 0 8 B.b B'.b ∧ B'.o = B.o ∧ B'.c = normBool B.c ∧ B'.l = B.l) := by
+  obtain ⟨p1, p2, p3, p4, p5⟩ := C04_stored_payloads B r hlen hd
+  have hvalid : ∀ σ, touchesOvw σ = false → applySetter ops σ r = .ok r' → r'.ovw.1.Valid := by
+    intro σ hσ h
+    have e2 := (C04_setter_untouched_columns ops σ r r' h).2.1 hσ
+    rw [e2]
+    have ho := hd.2.1
+    rw [decodeOvw_eq _ hlen, liftDec_ok_iff] at ho
+    exact (ovw_exact _ _ _ ho).1
+  refine ⟨?_, ?_, ?_, ?_⟩
+  · intro v h
+    obtain ⟨q1, q2, q3, q4, q5⟩ := C04_written_payloads r' B' (hvalid _ rfl h) he
+    obtain ⟨f1, f2, f3, f4, f5⟩ := C04_setter_frame_average_loudness ops v r r' h
+    rw [p1, q1] at f1; rw [p2, q2] at f2; rw [p3, q3] at f3; rw [p4, q4] at f4; rw [p5, q5] at f5
+    exact ⟨f1, f2, f3, f4, f5⟩
+  · intro v h
+    obtain ⟨q1, q2, q3, q4, q5⟩ := C04_written_payloads r' B' (hvalid _ rfl h) he
+    obtain ⟨f1, f2, f3, f4, f5⟩ := C04_setter_frame_key ops v r r' h
+    rw [p1, q1] at f1; rw [p2, q2] at f2; rw [p3, q3] at f3; rw [p4, q4] at f4; rw [p5, q5] at f5
+    exact ⟨f1, f2, f3, f4, f5⟩
+  · intro v h
+    obtain ⟨q1, q2, q3, q4, q5⟩ := C04_written_payloads r' B' (hvalid _ rfl h) he
+    obtain ⟨f1, f2, f3, f4, f5⟩ := C04_setter_frame_sample_count ops v r r' h
+    rw [p1, q1] at f1; rw [p3, q3] at f2; rw [p2, q2] at f3; rw [p4, q4] at f4; rw [p5, q5] at f5
+    exact ⟨f1, f2, f3, f4, f5⟩
+  · intro v h
+    obtain ⟨q1, q2, q3, q4, q5⟩ := C04_written_payloads r' B' (hvalid _ rfl h) he
+    obtain ⟨f1, f2, f3, f4, f5⟩ := C04_setter_frame_sample_rate ops v r r' h
+    rw [p1, q1] at f1; rw [p3, q3] at f2; rw [p2, q2] at f3; rw [p4, q4] at f4; rw [p5, q5] at f5
+    exact ⟨f1, f2, f3, f4, f5⟩
+
+/-- Stored-bytes form, the per-slot setters: in the stored quick-cues (loops) payload only the bytes of
+entry `i` are replaced; the other four payloads are byte-identical. -/
+theorem C04_slot_setters_bytes (ops : FOps) (B B' : Stored) (r r' : Row)
+    (hlen : B.o.length < maxCount) (hd : DecodesTo B r) (he : EncodesTo r' B') :
+    (∀ i v, applySetter ops (.hotCueAt i v) r = .ok r' →
+      B'.t = B.t ∧ B'.o = B.o ∧ B'.b = B.b ∧ B'.l = B.l ∧
+      ∃ pre post old, normBool B.c = pre ++ V2.cue.enc old ++ post ∧
+        B'.c = pre ++ V2.cue.enc (writeHotCue v) ++ post ∧ r.cues.1.cues[i.toNat]? = some old) ∧
+    (∀ i v, applySetter ops (.loopAt i v) r = .ok r' →
+      B'.t = B.t ∧ B'.o = B.o ∧ B'.b = B.b ∧ B'.c = normBool B.c ∧
+      ∃ pre post old, B.l = pre ++ V2.loop.enc old ++ post ∧
+        B'.l = pre ++ V2.loop.enc (writeLoop v) ++ post ∧ r.loops.1[i.toNat]? = some old) := by
+  obtain ⟨p1, p2, p3, p4, p5⟩ := C04_stored_payloads B r hlen hd
+  have hvalid : ∀ σ, touchesOvw σ = false → applySetter ops σ r = .ok r' → r'.ovw.1.Valid := by
+    intro σ hσ h
+    have e2 := (C04_setter_untouched_columns ops σ r r' h).2.1 hσ
+    rw [e2]
+    have ho := hd.2.1
+    rw [decodeOvw_eq _ hlen, liftDec_ok_iff] at ho
+    exact (ovw_exact _ _ _ ho).1
+  refine ⟨?_, ?_⟩
+  · intro i v h
+    obtain ⟨q1, q2, q3, q4, q5⟩ := C04_written_payloads r' B' (hvalid _ rfl h) he
+    obtain ⟨f1, f2, f3, f5, pre, post, old, g1, g2, g3⟩ := C04_setter_frame_hot_cue_at ops i v r r' h
+    rw [p1, q1] at f1; rw [p2, q2] at f2; rw [p3, q3] at f3; rw [p5, q5] at f5
+    rw [p4] at g1; rw [q4] at g2
+    exact ⟨f1, f2, f3, f5, pre, post, old, g1, g2, g3⟩
+  · intro i v h
+    obtain ⟨q1, q2, q3, q4, q5⟩ := C04_written_payloads r' B' (hvalid _ rfl h) he
+    obtain ⟨f1, f2, f3, f4, pre, post, old, g1, g2, g3⟩ := C04_setter_frame_loop_at ops i v r r' h
+    rw [p1, q1] at f1; rw [p2, q2] at f2; rw [p3, q3] at f3; rw [p4, q4] at f4
+    rw [p5] at g1; rw [q5] at g2
+    exact ⟨f1, f2, f3, f4, pre, post, old, g1, g2, g3⟩
+
+example : columnOnly (.title (some [65])) = true ∧ columnOnly (.key none) = false := by decide
+
+/-- non-vacuity: the foreign-looking row of the frame section (three cue entries, a labelled empty slot,
+trailing bytes in every column) is what its own payloads decode to and encode from -/
+example : DecodesTo ⟨payloadTrack row0, payloadOvw row0, payloadBeat row0, payloadCues row0, payloadLoops row0⟩ row0 ∧
+    EncodesTo row0 ⟨payloadTrack row0, payloadOvw row0, payloadBeat row0, payloadCues row0, payloadLoops row0⟩ := by
+  unfold DecodesTo EncodesTo
+  refine ⟨⟨?_, ?_, ?_, ?_, ?_⟩, ⟨?_, ?_, ?_, ?_, ?_⟩⟩ <;> set_option maxRecDepth 8192 in decide
+
+end StoredBytes
 
 end EngineModel.Properties.C04
